@@ -110,6 +110,15 @@ class Main(Suite):
             st = pg.gen_state(rng, features=f)
             c = pg.recipe(st)
             c["bucket"] = "plain" if len(f) == 2 else f[2]
+            if k % 11 == 5:
+                # racily clean entry: same size, same mtime as staged, index not newer than the file -> must be hashed
+                a, b = rng.choice([(b"11\n", b"22\n"), (b"1\n", b"2\n"), (b"x", b"y")])
+                m = rng.choice(["f", "x"])
+                st = {"fmt": "sha1", "filemode": True, "racy": True, "exclude": b"", "dirs": [],
+                      "head": {"r": (m, a), "k": ("f", b"keep\n")}, "index": {"r": (m, a, ""), "k": ("f", b"keep\n", "")},
+                      "wt": {"r": (m, b, "samestat"), "k": ("f", b"keep\n", "")}}
+                c = pg.recipe(st)
+                c["bucket"] = "racy-samestat"
             cases.append(c)
         return cases
 
